@@ -44,10 +44,82 @@ def cases(tier):
     out.append({"name": "g2_s1s2", "glens": [2], "slens": [1, 2]})
     if tier == "thorough":
         out.append({"name": "g111_s1", "glens": [1, 1, 1], "slens": [1]})
+    # the REAL evaluator behind the aggregator: every value its result reports has a column and is read back, whatever other evaluator was
+    # created or queried in the process before (a solver-chosen prefix)
+    out.append({"name": "real_evaluator_columns", "what": "evaluator"})
     return out
 
 
+EV_PRE = ["nothing", "narrow_evaluator_reads_keys", "narrow_aggregator_constructed", "wide_other_instance_metrics_reads_keys"]
+EV_INPUT = ([[1, 1, 0, 2]], [[1, 0, 0, 2]])        # 1x4 matched instances: label 1 IoU 1/2, label 2 IoU 1
+
+
+def _run_evaluator_case(case):
+    from ..twin import Twin
+    from ..symnp import SArr
+    fs = fsmodel.FS()
+    mods, fopen = fsmodel.make_modules(fs)
+    eb = dict(EXTRA_BUILTINS)
+    eb["open"] = fopen
+    T = Twin(fakes=mods, ast_transformers=[Rewrite()], extra_builtins=eb)
+    P = T.panoptica
+    PA = T.mod("panoptica.panoptica_aggregator")
+    PS = T.mod("panoptica.panoptica_statistics")
+    Metric = P.Metric
+    pre = z3.Int("pre")
+
+    def decode(mo):
+        return {"what": "evaluator", "pre": EV_PRE[jsonable(pre, mo)]}
+    h = H(PROP, case["name"], decode, replay_kind="evaluator", max_witnesses=8)
+
+    def mk_ev(inst, glob):
+        return P.Panoptica_Evaluator(expected_input=P.InputType.MATCHED_INSTANCE, instance_metrics=inst, global_metrics=glob, verbose=False)
+
+    def body():
+        fs.__init__()
+        fs.dirs.add("/out")
+        op = EV_PRE[ENG.concretize(pre, 0, len(EV_PRE) - 1)]
+        try:
+            if op == "narrow_evaluator_reads_keys":
+                mk_ev([Metric.DSC, Metric.IOU], [Metric.DSC]).resulting_metric_keys
+            elif op == "narrow_aggregator_constructed":
+                PA.Panoptica_Aggregator(mk_ev([Metric.DSC, Metric.IOU], []), "/out/narrow.tsv")
+            elif op == "wide_other_instance_metrics_reads_keys":
+                mk_ev([Metric.DSC, Metric.IOU, Metric.RVD], [Metric.DSC, Metric.IOU, Metric.RVD]).resulting_metric_keys
+            ev = mk_ev([Metric.DSC, Metric.IOU], [Metric.DSC, Metric.IOU])
+            agg = PA.Panoptica_Aggregator(ev, "/out/r.tsv")
+            arr = lambda x: SArr([v for row in x for v in row], "uint8", (1, 4))
+            agg.evaluate(arr(EV_INPUT[0]), arr(EV_INPUT[1]), "s1")
+            want = mk_ev([Metric.DSC, Metric.IOU], [Metric.DSC, Metric.IOU]).evaluate(arr(EV_INPUT[0]), arr(EV_INPUT[1]), verbose=False)["ungrouped"][0].to_dict()
+            st = PS.Panoptica_Statistic.from_file("/out/r.tsv")
+        except EngineSignal:
+            raise
+        except Exception as e:
+            h.fail("write_and_load_complete", detail="%s: %s" % (type(e).__name__, str(e)[:160]))
+            return
+        h.note_nontrivial(op)
+        h.note_nontrivial("global:" + op)
+        for k, v in want.items():
+            if isinstance(v, (list, tuple)) or v is None or isinstance(v, str):
+                continue
+            try:
+                got = st.get("ungrouped", k)
+            except EngineSignal:
+                raise
+            except Exception as e:
+                h.fail("every_reported_value_has_a_column", detail={"key": k, "error": "%s: %s" % (type(e).__name__, str(e)[:100])})
+                continue
+            fin = not (isinstance(v, float) and (v != v or v in (float("inf"), float("-inf"))))
+            if fin:
+                ok = len(got) == 1 and got[0] is not None and bool(SBool((SNum(got[0]) == SNum(v)).t)) if not isinstance(got[0] if got else None, type(None)) else False
+                h.ok("finite_value_recovered_exactly", ok, detail={"key": k, "written": repr(v), "read": repr(got)})
+        h.witness(expect=None)
+    return explore_case(h, body, base=[pre >= 0, pre < len(EV_PRE)], concretize_div=64, time_budget=3000)
+
+
 def run_case(case):
+    if case.get("what") == "evaluator":
+        return _run_evaluator_case(case)
     from ..twin import Twin
     fs = fsmodel.FS()
     mods, fopen = fsmodel.make_modules(fs)
@@ -300,4 +372,58 @@ def real_roundtrip(case, mode, expect):
     return {"match": True, "violates": bad is not None, "reason": bad, "observed": None}
 
 
-REAL = {"roundtrip": real_roundtrip}
+def real_evaluator(case, mode, expect):
+    import math
+    import os
+    import shutil
+    import tempfile
+    import numpy as np
+    from panoptica import Panoptica_Evaluator, Panoptica_Aggregator, InputType, Metric
+    from panoptica.panoptica_statistics import Panoptica_Statistic
+    from . import realcommon as RC
+    RC.use_serial_pool(True)
+    tmp = tempfile.mkdtemp(prefix="c18ev_")
+    bad = None
+
+    def mk_ev(inst, glob):
+        return Panoptica_Evaluator(expected_input=InputType.MATCHED_INSTANCE, instance_metrics=inst, global_metrics=glob, verbose=False)
+    try:
+        op = case["pre"]
+        if op == "narrow_evaluator_reads_keys":
+            mk_ev([Metric.DSC, Metric.IOU], [Metric.DSC]).resulting_metric_keys
+        elif op == "narrow_aggregator_constructed":
+            Panoptica_Aggregator(mk_ev([Metric.DSC, Metric.IOU], []), os.path.join(tmp, "narrow.tsv"))
+        elif op == "wide_other_instance_metrics_reads_keys":
+            mk_ev([Metric.DSC, Metric.IOU, Metric.RVD], [Metric.DSC, Metric.IOU, Metric.RVD]).resulting_metric_keys
+        ev = mk_ev([Metric.DSC, Metric.IOU], [Metric.DSC, Metric.IOU])
+        out = os.path.join(tmp, "r.tsv")
+        agg = Panoptica_Aggregator(ev, out)
+        p, r = np.array(EV_INPUT[0], dtype=np.uint8), np.array(EV_INPUT[1], dtype=np.uint8)
+        agg.evaluate(p, r, "s1")
+        want = mk_ev([Metric.DSC, Metric.IOU], [Metric.DSC, Metric.IOU]).evaluate(p, r, verbose=False)["ungrouped"][0].to_dict()
+        st = Panoptica_Statistic.from_file(out)
+        for k, v in want.items():
+            if isinstance(v, (list, tuple, str)) or v is None:
+                continue
+            try:
+                got = st.get("ungrouped", k)
+            except Exception as e:
+                bad = "every_reported_value_has_a_column: after %s the value %s=%r reported by the evaluator cannot be read back (%s: %s)" % (op, k, v, type(e).__name__, str(e)[:80])
+                break
+            if isinstance(v, float) and not math.isfinite(v):
+                continue
+            if len(got) != 1 or got[0] is None or abs(float(got[0]) - float(v)) > 1e-12:
+                bad = "finite_value_recovered_exactly: after %s %s written %r, read %r" % (op, k, v, got)
+                break
+    except Exception as e:
+        bad = "write_and_load_complete: %s: %s" % (type(e).__name__, str(e)[:160])
+    finally:
+        shutil.rmtree(tmp, ignore_errors=True)
+        try:
+            os.remove(os.path.join(os.path.dirname(tmp), "panoptica_aggregator_tmp.tsv"))
+        except OSError:
+            pass
+    return {"match": True, "violates": bad is not None, "reason": bad, "observed": None}
+
+
+REAL = {"roundtrip": real_roundtrip, "evaluator": real_evaluator}
